@@ -158,13 +158,17 @@ class InternalTargets(Part):
     family = "peer16"
     exec_module = "PeerExec"
     one_per_process = True
-    TG = {"user": 0, "writer": 1, "router": 2, "events": 3, "response": 4}
+    TG = {"user": 0, "writer": 1, "router": 2, "events": 3, "response": 4, "streams": 5}
     OUT = {"ok": 0, "error": 1, "panic": 2}
-    branch_names = {1: "stream_writer", 2: "stream_router", 3: "event_stream", 4: "response_mailbox"}
+    branch_names = {1: "stream_writer", 2: "stream_router", 3: "event_stream", 4: "response_mailbox",
+                    5: "several_inbound_streams_at_once_on_a_fresh_reader"}
     crash_obs = {"outcome": "panic", "note": "the harness process died: a panic on a goroutine of the node"}
 
     def generate(self, rng, tier):
         cs = [{"target": t, "msg": m, "n": n} for t in self.TG for m in ("pid", "test") for n in ((1, 3) if tier == "quick" else (1, 2, 3, 9))]
+        # several peers connect at the same moment to a node that has just come up: ONE stream reader serves all
+        # inbound streams (round-4 seed C16-r4-1: unsynchronised per-reader cache)
+        cs += [{"target": "streams", "msg": "all", "n": n, "rounds": 250 if tier == "quick" else 1500} for n in (2, 8)]
         return [{"input": c, "class": c["target"]} for c in cs]
 
     def to_coq(self, inp, obs):
